@@ -604,4 +604,10 @@ def discarded_value_programs():
         out.append(('=', 1, 2, S('nosuch')))
         out.append(('do', ('define', A, 0), ('=', 1, 2, ('set', [(A, 5)])), S(A)))
         out.append(('do', ('define', A, 0), ('list', ('=', 1, 2, ('print', 7)), ('=', 3, 3, ('do', ('print', 8), 3)), S(A))))
+        # case selects a clause by the VALUE of the key form (a comparison result selects the clause 1 / 0; a string
+        # never selects a number clause), and runs the body of that clause only
+        out.append(('do', ('define', A, 2), ('case', ('=', S(A), 2), [(1, [('print', 1), ('set', [(A, 7)]), S(A)]), (0, [('print', 0), 5]), ('default', [('print', 9), 6])])))
+        out.append(('do', ('define', A, 2), ('case', ('=', S(A), 3), [(1, [('print', 1), 4]), (0, [('print', 0), ('set', [(A, 8)]), S(A)]), ('default', [('print', 9), 6])])))
+        out.append(('do', ('define', A, 2), ('case', ('<', S(A), 3), [(0, [('print', 0), 5]), (1, [('print', 1), 4])])))
+        out.append(('do', ('define', A, 1), ('case', "1", [(1, [('print', 1), 4]), ('default', [('print', 9), S(A)])])))
     return out
